@@ -78,6 +78,37 @@ pub fn run(ctx: &Ctx, rep: &mut Reporter) {
     for case_idx in ctx.case_range() {
         let mut rng = ctx_rng(ctx, case_idx);
         let ast = Gen::new(&mut rng, cfg_for(case_idx, ctx.slow())).ast();
+        let mut ast = ast;
+        if case_idx % 2 == 0 {
+            // a class with runs of k entries under one obfuscated method name in which exactly
+            // one entry — the first, the last or one in the middle — has another original name:
+            // every such method is ambiguous, however the run is searched
+            use pgvcore::ast::MethodEntry;
+            ast.items.push(Item::Class { orig: "com.example.Runs".into(), obf: "zz.runs".into() });
+            let mut line = 1u128;
+            for (gi, k) in [7usize, 8, 9, 13, 14, 15, 16, 25, 31, 32, 33, 64].iter().enumerate() {
+                let odd = match (case_idx / 2 + gi as u64) % 3 {
+                    0 => 0,
+                    1 => k - 1,
+                    _ => k / 2,
+                };
+                for i in 0..*k {
+                    ast.items.push(Item::Method(MethodEntry {
+                        start: Some(line),
+                        end: Some(line + 1),
+                        ret: "void".into(),
+                        orig_class: None,
+                        orig: if i == odd { "odd".into() } else { "same".into() },
+                        args: "".into(),
+                        ostart: Some(100 + line),
+                        oend: None,
+                        obf: format!("g{k}"),
+                    }));
+                    line += 3;
+                }
+            }
+            rep.count("files_with_runs_of_7_to_64_entries_one_of_them_odd", 1);
+        }
         if !is_representable(&ast) {
             rep.count("skipped_unrepresentable", 1);
             continue;
